@@ -28,6 +28,9 @@ func (b *Body) appendItem(c nodeContent) *node {
 	b.ensureLineEnd()
 	nn := b.children.Append(c)
 	b.items.Add(nn)
+	// The new item can itself lack a line end: a block that was the last
+	// item of a file without a final newline, removed and appended here.
+	b.ensureLineEnd()
 	return nn
 }
 
